@@ -374,6 +374,48 @@ theorem getD_app_right (A B : List K) (n i : ℕ) (h : A.length = n) :
     (i := n + i) (by omega), h]
 
 
+/-! the executed objective `groupObj` -/
+omit [LinearOrder K] [IsStrictOrderedRing K] in
+/-- The executed `groupObj` written with finite sums. -/
+theorem groupObj_eq (sqrt : K → K) (phi : K → K) (pw : List K) (d m : ℕ) (b : List K)
+    (g : Option (List K)) (s : K) (x z : List K) (hz : z.length = d * m) :
+    groupObj sqrt phi pw d m b g s x z
+      = ∑ i ∈ range m, b.getD i 0 * (phi (sqrt (∑ k ∈ range d, pw.getD k 1 *
+          ((z.getD (k * m + i) 0 - gAt g (k * m + i)) * (z.getD (k * m + i) 0 - gAt g (k * m + i)))))
+        + (∑ k ∈ range d, pw.getD k 1 * (z.getD (k * m + i) 0 - x.getD (k * m + i) 0) ^ 2)
+            / (2 * s)) := by
+  unfold groupObj
+  simp only [sumK_eq_sum, list_range_map_sum]
+  apply Finset.sum_congr rfl
+  intro i hi
+  have hi' := mem_range.mp hi
+  rw [pwNorm_getD _ _ _ _ _ _ _ hi']
+  have hdiff : ∀ k ∈ range d, (idxMap z fun i zi => zi - gAt g i).getD (k * m + i) 0
+      = z.getD (k * m + i) 0 - gAt g (k * m + i) := by
+    intro k hk
+    rw [idxMap_getD _ _ _ _ (by rw [hz]; exact idx_lt (mem_range.mp hk) hi')]
+  rw [Finset.sum_congr rfl (fun k hk => by rw [hdiff k hk])]
+  have h2 : (1 + 1 : K) = 2 := by norm_num
+  rw [h2]
+  congr 3
+  apply Finset.sum_congr rfl
+  intro k _
+  ring
+
+omit [LinearOrder K] [IsStrictOrderedRing K] in
+theorem groupObj_add_quad (b A S1 S2 S12 s : K) (h : S12 = S1 + S2) :
+    b * (A + S1 / (2 * s)) + b * (0 + S2 / (2 * s)) = b * (A + S12 / (2 * s)) := by
+  rw [h]; ring
+
+theorem huberValK_eq (gam t : K) (hg : 0 < gam) (ht : 0 ≤ t) : huberValK gam t = huberFn gam t := by
+  unfold huberValK huberFn
+  rw [if_pos hg, abs_of_nonneg ht]
+  rcases lt_trichotomy t gam with h | h | h
+  · rw [if_neg (not_le.mpr h), if_pos h.le]; field_simp; ring
+  · subst h; rw [if_pos le_rfl, if_pos le_rfl]; field_simp; ring
+  · rw [if_pos h.le, if_neg (not_le.mpr h)]; norm_num
+
+
 end Group
 
 /-! ## the abstract layer: functionals on a real inner product space -/
